@@ -38,6 +38,7 @@ import (
 )
 
 type walkScen struct {
+	delay    bool // `v<n>d`: the node holds the answer to every follow-up request for a moment (see setupWalk)
 	ver      int
 	consumer string
 	prefetch string
@@ -52,7 +53,11 @@ func (s walkScen) String() string {
 	for i, r := range s.script {
 		sc[i] = r.String()
 	}
-	return fmt.Sprintf("walk v%d %s %s %d %s %s %s", s.ver, s.consumer, s.prefetch, s.pageSize, s.kind, strings.Join(sc, ";"), strings.Join(s.steps, ","))
+	d := ""
+	if s.delay {
+		d = "d"
+	}
+	return fmt.Sprintf("walk v%d%s %s %s %d %s %s %s", s.ver, d, s.consumer, s.prefetch, s.pageSize, s.kind, strings.Join(sc, ";"), strings.Join(s.steps, ","))
 }
 
 func parseWalk(op string) walkScen {
@@ -61,8 +66,9 @@ func parseWalk(op string) walkScen {
 		panic("bad walk op")
 	}
 	// reuse the session tier's parser for the script
-	ps := parseScen(fmt.Sprintf("sess %s scan %s %s %s . %s", w[1], w[3], w[4], w[5], w[6]))
-	return walkScen{ver: ps.ver, consumer: w[2], prefetch: w[3], pageSize: ps.pageSize, kind: w[5], script: ps.script, steps: strings.Split(w[7], ",")}
+	delay := strings.HasSuffix(w[1], "d")
+	ps := parseScen(fmt.Sprintf("sess %s scan %s %s %s . %s", strings.TrimSuffix(w[1], "d"), w[3], w[4], w[5], w[6]))
+	return walkScen{delay: delay, ver: ps.ver, consumer: w[2], prefetch: w[3], pageSize: ps.pageSize, kind: w[5], script: ps.script, steps: strings.Split(w[7], ",")}
 }
 
 func execWalk(op string) (answer string) {
@@ -163,6 +169,12 @@ func setupWalk(sc walkScen) (env *walkEnv, fatal string) {
 				r = reply{fail: "exhausted"}
 			}
 			mu.Unlock()
+			if sc.delay && req.QFlags&0x08 != 0 {
+				// PREFETCH RACING THE CONSUMER: with the answer to a follow-up request held for a moment, a consumer that
+				// keeps scanning reaches the page switch while the asynchronous fetch is still in flight and has to
+				// wait for it inside nextIter.fetch (sync.Once hand-over). Outcomes do not depend on the timing.
+				time.Sleep(300 * time.Microsecond)
+			}
 			switch r.fail {
 			case "":
 				rows := make([][][]byte, len(r.rows))
@@ -511,6 +523,7 @@ func (g *wgen) random() (walkScen, string) {
 		}
 		total += sizes[i]
 	}
+	sc.delay = g.r.Intn(4) == 0
 	unprepAt := -1
 	if sc.kind != "q" && g.r.Intn(6) == 0 {
 		unprepAt = g.r.Intn(np)
